@@ -110,6 +110,10 @@ class Native:
         sizes = sorted(set(sizes))
         arms = "\n".join("        (%d, %d) => match cmd { \"saw\" => saw::<%d, %d>(v), \"init\" => init::<%d, %d>(v), _ => scroll::<%d, %d>(v) }," % (a, b, a, b, a, b, a, b) for (a, b) in sizes)
         disp = "fn dispatch(cmd: &str, v: &[i64]) -> String {\n    match (v[0], v[1]) {\n%s\n        _ => \"nosize\".into(),\n    }\n}\n" % arms
+        repo = os.environ.get("VERIF_REPO", "/repo")
+        if repo != "/repo":
+            ct = os.path.join(self.dir, "Cargo.toml")
+            open(ct, "w").write(open(ct).read().replace('path = "/repo"', 'path = "%s"' % repo))
         p = os.path.join(self.dir, "src", "main.rs")
         s = open(p).read().replace("/*DISPATCH*/", disp)
         open(p, "w").write(s)
@@ -274,7 +278,7 @@ def validate_and_replay(prop, scratch, seed, E, cands):
         out = nat.run([("%s " % kind) + " ".join(str(x) for x in v)])[0]
         good, why = judge(kind, v, out)
         if not good:
-            d = os.path.join(VERIF, "replays", prop)
+            d = os.path.join(os.environ.get("VERIF_OUT", VERIF), "replays", prop)
             os.makedirs(d, exist_ok=True)
             path = os.path.join(d, "e2_%s.json" % re.sub(r"[^A-Za-z0-9]+", "_", ob["name"]))
             json.dump({"engine": "mir2smt", "property": prop, "kind": kind, "input": v, "native_output": out, "why": why,
@@ -287,7 +291,7 @@ def validate_and_replay(prop, scratch, seed, E, cands):
             ob["verdict"] = "inconclusive"
             ob["what"] += " (solver model does not reproduce on the real code: encoding suspect; native says %r)" % out
     for f in report.get("native_oracle_failures", [])[:1]:
-        d = os.path.join(VERIF, "replays", prop)
+        d = os.path.join(os.environ.get("VERIF_OUT", VERIF), "replays", prop)
         os.makedirs(d, exist_ok=True)
         path = os.path.join(d, "e2_vector_%s.json" % f["kind"])
         json.dump({"engine": "mir2smt", "property": prop, "kind": f["kind"], "input": f["input"], "native_output": f["native"], "why": f["why"]}, open(path, "w"), indent=1)
